@@ -994,8 +994,107 @@ func checkTemplate(c *fc, typ string, f map[string]any, tmpl *tinkpb.KeyTemplate
 		c.version(m.GetVersion())
 		c.jwtAlg(int32(m.GetAlgorithm()), m.GetAlgorithm().String(), fStr(f, "algorithm"))
 		c.num("key_size", int64(m.GetKeySize()), fInt(f, "key_size"))
+	case "JwtEcdsa":
+		m := &jwtecdsapb.JwtEcdsaKeyFormat{}
+		c.unmarshal(v, m)
+		c.version(m.GetVersion())
+		c.jwtAlg(int32(m.GetAlgorithm()), m.GetAlgorithm().String(), fStr(f, "algorithm"))
+	case "JwtRsaSsaPkcs1":
+		m := &jwtrsapkcs1pb.JwtRsaSsaPkcs1KeyFormat{}
+		c.unmarshal(v, m)
+		c.version(m.GetVersion())
+		c.jwtAlg(int32(m.GetAlgorithm()), m.GetAlgorithm().String(), fStr(f, "algorithm"))
+		c.num("modulus_size_in_bits", int64(m.GetModulusSizeInBits()), fInt(f, "modulus_bits"))
+		c.bigint("public_exponent", m.GetPublicExponent(), big.NewInt(int64(fInt(f, "public_exponent"))).Bytes())
+	case "JwtRsaSsaPss":
+		m := &jwtrsapsspb.JwtRsaSsaPssKeyFormat{}
+		c.unmarshal(v, m)
+		c.version(m.GetVersion())
+		c.jwtAlg(int32(m.GetAlgorithm()), m.GetAlgorithm().String(), fStr(f, "algorithm"))
+		c.num("modulus_size_in_bits", int64(m.GetModulusSizeInBits()), fInt(f, "modulus_bits"))
+		c.bigint("public_exponent", m.GetPublicExponent(), big.NewInt(int64(fInt(f, "public_exponent"))).Bytes())
+	case "JwtMlDsa":
+		m := &jwtmldsapb.JwtMlDsaKeyFormat{}
+		c.unmarshal(v, m)
+		c.version(m.GetVersion())
+		c.jwtAlg(int32(m.GetAlgorithm()), m.GetAlgorithm().String(), fStr(f, "algorithm"))
+	case "MlDsa":
+		m := &mldsapb.MlDsaKeyFormat{}
+		c.unmarshal(v, m)
+		c.version(m.GetVersion())
+		if m.GetParams() == nil {
+			c.failf("params missing")
+		}
+		c.noUnknown(m.GetParams())
+		if m.GetParams().GetMlDsaInstance() != mlDsaEnum[fStr(f, "instance")] {
+			c.failf("params.ml_dsa_instance = %v, generated from %s", m.GetParams().GetMlDsaInstance(), fStr(f, "instance"))
+		}
+	case "SlhDsa":
+		m := &slhdsapb.SlhDsaKeyFormat{}
+		c.unmarshal(v, m)
+		c.version(m.GetVersion())
+		p := m.GetParams()
+		if p == nil {
+			c.failf("params missing")
+		}
+		c.noUnknown(p)
+		c.num("params.key_size", int64(p.GetKeySize()), fInt(f, "key_size"))
+		if p.GetHashType() != slhHashEnum[fStr(f, "hash_type")] {
+			c.failf("params.hash_type = %v, generated from %s", p.GetHashType(), fStr(f, "hash_type"))
+		}
+		if p.GetSigType() != slhSigEnum[fStr(f, "sig_type")] {
+			c.failf("params.sig_type = %v, generated from %s", p.GetSigType(), fStr(f, "sig_type"))
+		}
+	case "CompositeMlDsa":
+		m := &compositepb.CompositeMlDsaKeyFormat{}
+		c.unmarshal(v, m)
+		c.version(m.GetVersion())
+		params := m.GetParams()
+		if params == nil {
+			c.failf("params missing")
+		}
+		c.noUnknown(params)
+		if params.GetMlDsaInstance() != mlDsaEnum[fStr(f, "instance")] {
+			c.failf("params.ml_dsa_instance = %v, generated from %s", params.GetMlDsaInstance(), fStr(f, "instance"))
+		}
+		if params.GetClassicalAlgorithm() != compositeEnum[fStr(f, "classical_algorithm")] {
+			c.failf("params.classical_algorithm = %v, generated from %s", params.GetClassicalAlgorithm(), fStr(f, "classical_algorithm"))
+		}
+	case "EciesAeadHkdf":
+		m := &eciespb.EciesAeadHkdfKeyFormat{}
+		c.unmarshal(v, m)
+		p := m.GetParams()
+		if p == nil || p.GetKemParams() == nil || p.GetDemParams() == nil || p.GetDemParams().GetAeadDem() == nil {
+			c.failf("params / kem_params / dem_params / aead_dem missing")
+		}
+		c.noUnknown(p)
+		c.noUnknown(p.GetKemParams())
+		c.noUnknown(p.GetDemParams())
+		if p.GetKemParams().GetCurveType() != curveEnum[fStr(f, "curve")] {
+			c.failf("kem_params.curve_type = %v, generated from %s", p.GetKemParams().GetCurveType(), fStr(f, "curve"))
+		}
+		c.hash("kem_params.hkdf_hash_type", p.GetKemParams().GetHkdfHashType(), fStr(f, "hash"))
+		c.bytes("kem_params.hkdf_salt", p.GetKemParams().GetHkdfSalt(), fBytes(f, "salt"))
+		if fStr(f, "curve") != "X25519" && p.GetEcPointFormat() != pointFormatEnum[fStr(f, "point_format")] {
+			c.failf("ec_point_format = %v, generated from %s", p.GetEcPointFormat(), fStr(f, "point_format"))
+		}
+		dem, ok := eciesDEM[fStr(f, "dem")]
+		if !ok {
+			c.failf("harness: unknown DEM %q", fStr(f, "dem"))
+		}
+		checkTemplate(c.at("aead_dem"), dem.typ, dem.f, p.GetDemParams().GetAeadDem(), false)
+	case "PrfBasedDeriver":
+		m := &deriverpb.PrfBasedDeriverKeyFormat{}
+		c.unmarshal(v, m)
+		if m.GetPrfKeyTemplate() == nil || m.GetParams() == nil || m.GetParams().GetDerivedKeyTemplate() == nil {
+			c.failf("prf_key_template / params / derived_key_template missing")
+		}
+		c.noUnknown(m.GetParams())
+		// the PRF key is used raw: its template's output prefix type carries no information
+		checkTemplate(c.at("prf_key_template"), fStr(f, "prf_type"), fMap(f, "prf"), m.GetPrfKeyTemplate(), false)
+		checkTemplate(c.at("derived_key_template"), fStr(f, "derived_type"), fMap(f, "derived"), m.GetParams().GetDerivedKeyTemplate(), true)
 	default:
-		// remaining types: type URL and output prefix type only
+		c.failf("harness: no template field table for type %s", typ)
 	}
 }
 
